@@ -41,10 +41,6 @@ AUDITED = {
         "sell_idx is an index into the live transaction slice (PROV: i + offset in the day loop)",
     ("ROLE:converter-rows", "Overflow(Add)"):
         "skipped_count is incremented at most once per input row held in memory (≤ isize::MAX rows)",
-    ("schwab::transactions::parse_date", "Overflow(Add)"):
-        "pos is the result of find(\" as of \") on the same str; the needle is 7 ASCII bytes so pos + 7 ≤ len",
-    ("schwab::transactions::parse_date", "str-range"):
-        "pos + 7 ≤ len and is a char boundary because the 7-byte ASCII needle was found at pos",
     ("format_tax_year::{closure#1}", "Overflow(Add)"):
         "every in-workspace caller passes TaxPeriod::start_year() (≤ 2100); checked by R2-callers",
     ("format_tax_year::{closure#1}", "RemainderByZero"): "constant divisor 100",
